@@ -157,7 +157,7 @@ structure View where
   off : Int
   step : Int
   len : Nat
-  deriving Repr
+  deriving Repr, DecidableEq
 
 inductive Slot where
   | d (v : Int)       -- a Python float / C++ double
